@@ -34,6 +34,8 @@ def make_tree(ctx, root, shape, leafmode, nshape=None):
     LAB = ['a', 0, (1, 't'), 'a', 'b', 0, 7, 'b', 'a', 0, 'b', 7]       # leaf labels in order of use (repeats on purpose)
     if leafmode == 'models_int':
         LAB = [0, 1, 2, 0, 1, 2, 0, 1, 2, 0, 1, 2]
+    if leafmode == 'labels_mixed':
+        LAB = [2.5, 1, 2.5, 'a', 1, 2.5, 0.5, 'a', 1, 2.5, 1, 'a']       # comparable labels of different types (float > int given first)
     if leafmode == 'labels_rep':
         LAB = ['a', 'a', 0, 0, 'a', 'a', 'a', 0, 'a', 0, 0, 'a']        # the same label several times inside one gate
     # count inner gates
@@ -69,7 +71,7 @@ def make_tree(ctx, root, shape, leafmode, nshape=None):
             if leafmode.startswith('models') and i % 2 == 0:
                 T = [qv.QUBO, qv.PUBO, qv.PCBO, QUBOMatrix, PUBOMatrix][(i // 2) % 5] if leafmode == 'models_int' else [qv.QUBO, qv.PUBO, qv.PCBO][(i // 2) % 3]
                 M = T({(l,): 1})
-                snaps.append((M, O.snapshot(M)))
+                snaps.append((M, (O.snapshot(M), O.book(M))))
                 return ('label', l), M
             return ('label', l), l
 
@@ -95,7 +97,7 @@ def make_tree(ctx, root, shape, leafmode, nshape=None):
         except KeyError as e:
             return ('keyerror', str(e)[:100], leafmode)
         tree = ('gate', root, [k[0] for k in kids])
-        unchanged = all(O.snapshot(o) == s for o, s in snaps)
+        unchanged = all(((O.snapshot(o), O.book(o)) if hasattr(o, 'variables') else O.snapshot(o)) == s for o, s in snaps)
         labels = sorted(set(used_labels), key=repr)
         first = {k: v for k, v in R.items()} if isinstance(R, dict) else R
         # history: the caller edits the returned model (and freshly built single-operand results) in place, then builds the
@@ -159,7 +161,7 @@ def jobs(tier, seed):
         for si, shape in enumerate(shapes):
             if root in ('NOT', 'BUFFER') and len(shape) != 1:
                 continue
-            for leafmode in ['labels', 'labels_rep', 'poly', 'models', 'models_int']:
+            for leafmode in ['labels', 'labels_rep', 'labels_mixed', 'poly', 'models', 'models_int']:
                 if leafmode == 'poly' and not shape: continue
                 if tier == 'quick' and leafmode in ('models', 'models_int') and si % 2 == 1: continue
                 J.append(dict(name='%s/shape%02d/%s' % (root, si, leafmode), sig='%s/%s' % (root, leafmode), module='vq.props.c07', make='make_tree',
